@@ -57,6 +57,52 @@ SHAPES = {
     "nested_deepjoin": ("std.length(std.deepJoin(std.foldl(function(a, i) [a, 'x'], std.range(1, {d}), [])))", False, False),
     "nested_sortkey": ("std.length(std.sort([std.foldl(function(a, i) [a], std.range(1, {d}), [1]), std.foldl(function(a, i) [a], std.range(1, {d}), [0])]))", True, False),
     "thunk_chain_locals": ("LOCALS", True, False),
+    # paths that are the only source of frames: thunk chains built iteratively, every builtin that walks or compares nested values
+    "super_chain": ("std.foldl(function(o, i) o + {{v: super.v + 1}}, std.range(1, {d}), {{v: 0}}).v", True, False),
+    "plus_chain": ("std.foldl(function(o, i) o + {{v+: 1}}, std.range(1, {d}), {{v: 0}}).v", True, False),
+    "lazy_acc_chain": ("local a = std.foldl(function(acc, i) [acc[0] + 1], std.range(1, {d}), [0]); a[0]", True, False),
+    "lazy_obj_acc_chain": ("local a = std.foldl(function(acc, i) {{v: acc.v + 1}}, std.range(1, {d}), {{v: 0}}); a.v", True, False),
+    "nested_notequal": ("local v = std.foldl(function(a, i) [a], std.range(1, {d}), [1]), w = std.foldl(function(a, i) [a], std.range(1, {d}), [2]); v != w", True, False),
+    "nested_std_equals": ("local v = std.foldl(function(a, i) [a], std.range(1, {d}), [1]), w = std.foldl(function(a, i) [a], std.range(1, {d}), [1]); std.equals(v, w)", True, False),
+    "nested_assertEqual": ("local v = std.foldl(function(a, i) [a], std.range(1, {d}), [1]), w = std.foldl(function(a, i) [a], std.range(1, {d}), [1]); std.assertEqual(v, w)", True, False),
+    "nested_compare_builtin": ("local v = std.foldl(function(a, i) [a], std.range(1, {d}), [1]), w = std.foldl(function(a, i) [a], std.range(1, {d}), [2]); std.__compare(v, w)", True, False),
+    "nested_ge": ("local v = std.foldl(function(a, i) [a], std.range(1, {d}), [1]), w = std.foldl(function(a, i) [a], std.range(1, {d}), [2]); v >= w", True, False),
+    "nested_member": ("local v = std.foldl(function(a, i) [a], std.range(1, {d}), [1]), w = std.foldl(function(a, i) [a], std.range(1, {d}), [1]); std.member([w], v)", True, False),
+    "nested_count": ("local v = std.foldl(function(a, i) [a], std.range(1, {d}), [1]), w = std.foldl(function(a, i) [a], std.range(1, {d}), [1]); std.count([w], v)", True, False),
+    "nested_find": ("local v = std.foldl(function(a, i) [a], std.range(1, {d}), [1]), w = std.foldl(function(a, i) [a], std.range(1, {d}), [1]); std.find(v, [w])", True, False),
+    "nested_setMember": ("local v = std.foldl(function(a, i) [a], std.range(1, {d}), [1]), w = std.foldl(function(a, i) [a], std.range(1, {d}), [1]); std.setMember(v, [w])", True, False),
+    "nested_uniq": ("local v = std.foldl(function(a, i) [a], std.range(1, {d}), [1]), w = std.foldl(function(a, i) [a], std.range(1, {d}), [1]); std.length(std.uniq([v, w]))", True, False),
+    "nested_set": ("local v = std.foldl(function(a, i) [a], std.range(1, {d}), [1]), w = std.foldl(function(a, i) [a], std.range(1, {d}), [1]); std.length(std.set([v, w]))", True, False),
+    "nested_minArray": ("local v = std.foldl(function(a, i) [a], std.range(1, {d}), [1]), w = std.foldl(function(a, i) [a], std.range(1, {d}), [0]); std.length(std.minArray([v, w]))", True, False),
+    "nested_setUnion": ("local v = std.foldl(function(a, i) [a], std.range(1, {d}), [1]), w = std.foldl(function(a, i) [a], std.range(1, {d}), [0]); std.length(std.setUnion([v], [w]))", True, False),
+    "nested_manifestJson": ("std.length(std.manifestJson(std.foldl(function(a, i) [a], std.range(1, {d}), [])))", True, False),
+    "nested_manifestJsonMinified": ("std.length(std.manifestJsonMinified(std.foldl(function(a, i) [a], std.range(1, {d}), [])))", True, False),
+    "nested_yamlStream": ("std.length(std.manifestYamlStream([std.foldl(function(a, i) [a], std.range(1, {d}), [])]))", True, False),
+    "nested_error_message": ("error std.foldl(function(a, i) [a], std.range(1, {d}), [])", True, False),
+    "nested_format_key": ("std.length('%(a)s' % {{a: std.foldl(function(a, i) [a], std.range(1, {d}), [])}})", True, False),
+    "nested_obj_tostring": ("std.length(std.toString(std.foldl(function(a, i) {{x: a}}, std.range(1, {d}), {{}})))", True, False),
+    "nested_xml": ("std.length(std.manifestXmlJsonml(std.foldl(function(a, i) ['t', a], std.range(1, {d}), ['t'])))", False, False),
+    "nested_ini": ("std.length(std.manifestIni({{main: {{a: std.foldl(function(a, i) [a], std.range(1, {d}), [])}}, sections: {{}}}}))", True, False),
+    "nested_objectvalues_eq": ("local v = std.foldl(function(a, i) {{x: a}}, std.range(1, {d}), {{}}); std.objectValues(v) == std.objectValues(v)", True, False),
+    "nested_trace": ("std.trace(std.toString(std.foldl(function(a, i) [a], std.range(1, {d}), [])), 1)", True, False),
+    "nested_assert_msg": ("assert false : std.toString(std.foldl(function(a, i) [a], std.range(1, {d}), [])); 1", True, False),
+    "nested_in_array_eq": ("local v = std.foldl(function(a, i) [a], std.range(1, {d}), [1]); [v, v] == [v, v]", True, False),
+    "nested_mixed_eq": ("local v = std.foldl(function(a, i) if i % 2 == 0 then [a] else {{x: a}}, std.range(1, {d}), [1]); v == v", True, False),
+    "nested_mixed_manifest": ("std.foldl(function(a, i) if i % 2 == 0 then [a] else {{x: a}}, std.range(1, {d}), [1])", True, False),
+    "comp_chain": ("local a = [if i == 0 then 0 else a[i - 1] + 1 for i in std.range(0, {d})]; a[{d}]", True, False),
+    "mapWithIndex_chain": ("local a = std.mapWithIndex(function(i, x) if i == 0 then 0 else a[i - 1] + 1, std.range(0, {d})); a[{d}]", True, False),
+    "map_lazy_chain": ("local a = std.map(function(i) if i == 0 then 0 else a[i - 1] + 1, std.range(0, {d})); a[{d}]", True, False),
+    "objcomp_dollar_chain": ("{{ [std.toString(i)]: if i == 0 then 0 else $[std.toString(i - 1)] + 1 for i in std.range(0, {d}) }}[std.toString({d})]", True, False),
+    "mapWithKey_chain": ("local o = std.mapWithKey(function(k, v) if v == 0 then 0 else o[std.toString(v - 1)] + 1, {{ [std.toString(i)]: i for i in std.range(0, {d}) }}); o[std.toString({d})]", True, False),
+    "default_arg_chain": ("local f(n, acc=if n == 0 then 0 else f(n - 1) + 1) = acc; f({d})", True, False),
+    "string_concat_rec": ("local f(n) = if n == 0 then '' else f(n - 1) + 'x'; std.length(f({d}))", True, False),
+    "array_concat_rec": ("local f(n) = if n == 0 then [] else f(n - 1) + [n]; std.length(f({d}))", True, False),
+    "assert_chain": ("local f(n) = if n == 0 then {{v: 0}} else {{assert f(n - 1).v >= 0, v: n}}; f({d}).v", True, False),
+    "objlocal_chain": ("local f(n) = if n == 0 then {{v: 0}} else {{local p = f(n - 1), v: p.v + 1}}; f({d}).v", True, False),
+    "func_value_chain": ("local f(n) = if n == 0 then function(x) x else local g = f(n - 1); function(x) g(x) + 1; f({d})(0)", True, False),
+    "foldl_lazy_func": ("std.foldl(function(g, i) function(x) g(x) + 1, std.range(1, {d}), function(x) x)(0)", True, False),
+    "foldr_strict": ("std.foldr(function(i, a) [a], std.range(1, {d}), [])", True, False),
+    "flatten_manifest": ("std.flattenArrays([std.foldl(function(a, i) [a], std.range(1, {d}), [])])", True, False),
     "self_local": ("local x = x; x", False, True),
     "self_local_pair": ("local a = b, b = a; a + {d}", False, True),
     "self_field": ("{{a: self.a}}.a", False, True),
@@ -98,12 +144,14 @@ SHAPES = {
     "endless_assertEqual": ("local x = [x]; std.assertEqual(x, x)", False, True),
 }
 NAMES = sorted(SHAPES)
-QUADRATIC_OUTPUT = {"nested_toml", "nested_yaml", "nested_jsonex", "nested_python"}
+QUADRATIC_OUTPUT = {"nested_toml", "nested_yaml", "nested_jsonex", "nested_python", "nested_manifestJson", "nested_yamlStream", "nested_ini"}
 # deep *object* nests are handled in quadratic time by the implementation (performance is not the property): keep them small
-SLOW = {"nested_obj_manifest", "nested_obj_equals", "nested_coerce", "nested_mergepatch", "endless_tostring", "self_object_manifest", "field_chain",
+SLOW = {"nested_obj_tostring", "nested_objectvalues_eq", "nested_mixed_eq", "nested_mixed_manifest", "lazy_obj_acc_chain", "objcomp_dollar_chain",
+        "mapWithKey_chain", "nested_obj_manifest", "nested_obj_equals", "nested_coerce", "nested_mergepatch", "endless_tostring", "self_object_manifest", "field_chain",
         "endless_format", "endless_manifest_ini", "endless_manifest_toml", "endless_manifest_yaml", "endless_manifest_python", "endless_equals_obj",
         "endless_deepJoin", "endless_mergePatch", "endless_mergePatch_both", "endless_prune", "endless_prune_array", "endless_manifest_xml",
         "endless_flattenDeepArray", "endless_objectValues"}
+QUADRATIC_BUILD = {"super_chain", "plus_chain"}
 LIMITS = [0, 1, 2, 3, 5, 10, 20, 50, 100, 200, 500, 1000, 5000, 50000, 1000000]
 DEPTHS = [0, 1, 2, 3, 5, 10, 30, 100, 300, 499, 500, 501, 1000, 3000, 10000, 30000]
 
@@ -146,6 +194,8 @@ def check_sweep(case):
         d = 2000  # indentation makes the output size quadratic in the depth: not the property
     if name in SLOW and d > 3000:
         d = 3000
+    if name in QUADRATIC_BUILD and d > 500:
+        d = 500  # a chain of d object extensions is built in quadratic time and memory: not the property
     src = source(name, d)
     outcomes = []
     # self-dependent shapes: a limit of 10^6 only adds minutes of frame pushing (and wall-limit inconclusives under load)
@@ -178,7 +228,9 @@ def check_sweep(case):
     # (iii) the limit is reached at all
     if grows:
         for s, out in outcomes:
-            if d >= 100 * s + 1000 and out[0] not in ("StackOverflow", "fuel"):
+            # the object-extension chains are capped at depth 500 (cost), so they get the tighter - still 20-fold slack - bound
+            reach = 20 * s + 200 if name in QUADRATIC_BUILD else 100 * s + 1000
+            if d >= reach and out[0] not in ("StackOverflow", "fuel"):
                 raise Violation("limit-never-reached", f"depth {d} under -s {s} gave {out[0]} instead of StackOverflow: {src[:200]}")
     # (iv) self-dependent values
     if cyclic:
@@ -245,7 +297,7 @@ def enum_cyclic(tier, worker, nworkers):
     growing = [n for n in NAMES if SHAPES[n][1]]
     for i, n in enumerate(growing):
         if i % nworkers == worker:
-            yield {"shape": n, "d": 3000, "limits": [5, 20, 1000000], "near": 0, "cli": False}
+            yield {"shape": n, "d": 3000, "limits": [1, 5, 20, 1000000], "near": 0, "cli": False}
 
 
 # ---------------------------------------------------------------------------------------------
